@@ -136,7 +136,7 @@ type scenario struct {
 	// after[t]: thread t takes its first step only when these threads have ended (one writer issuing
 	// its calls one after the other = a chain); nil = no constraint
 	after map[int][]int
-	// the equivalence the Value and the Collection are constructed with (cfg.go); nil = none
+	// the equivalence and the writable fields the Value and the Collection are constructed with (cfg.go); nil = none
 	cfg *rcfg
 }
 
@@ -188,7 +188,7 @@ func newWorld(sc *scenario) *world {
 		vopts = append(vopts, resource.WithInitialValue(toProto(*sc.vinit)))
 	}
 	if sc.cfg != nil {
-		vopts = append(vopts, sc.cfg.option())
+		vopts = append(vopts, sc.cfg.options()...)
 	}
 	w.val = resource.NewValue(vopts...)
 	w.rng = &gidRNG{bufs: map[int64][][]byte{}}
@@ -197,7 +197,7 @@ func newWorld(sc *scenario) *world {
 		copts = append(copts, resource.WithIDInterceptor(asciiLower))
 	}
 	if sc.cfg != nil {
-		copts = append(copts, sc.cfg.option())
+		copts = append(copts, sc.cfg.options()...)
 	}
 	w.coll = resource.NewCollection(copts...)
 	w.idLower = sc.idLower
@@ -211,7 +211,7 @@ func newWorld(sc *scenario) *world {
 		}
 	}
 	for _, it := range sc.cinit {
-		if _, err := w.coll.Update(it.id, toProto(it.m), resource.WithCreateIfAbsent(), resource.WithWriteTime(time.Unix(0, it.t))); err != nil {
+		if _, err := w.coll.Update(it.id, toProto(it.m), resource.WithCreateIfAbsent(), resource.WithAllFieldsWritable(), resource.WithWriteTime(time.Unix(0, it.t))); err != nil {
 			panic(err)
 		}
 	}
